@@ -1612,7 +1612,7 @@ def _shard(arg):
                  "as_int": bool(f & 1), "fault": None})
         res.sample({"kind": "queryfilter", "enum": "gen", "bits": bits, "unit": 0x123456 & top}, cls="query filter (%d-bit)" % w)
     elif kind == "connect-scan":
-        case = {"kind": "connect-scan", "driver": arg[1]}
+        case = {"kind": "connect-scan", "driver": arg[1], "map": arg[2] if len(arg) > 2 else "default"}
         res.count()
         res.nontrivial()
         res.label("connect-scan:" + arg[1])
@@ -1718,8 +1718,29 @@ def case_scan_on_connect(case):
     asked for its status, inside the quiescent-mode bracket.  case: {"kind": "connect-scan", "driver": "luba"|"sci"}"""
     from harness.gateways_serial import SerialSim
     from dali import command as _cmd, frame as _fr
+    from dali.device.helpers import DeviceInstanceTypeMapper
+    from dali.device import general as _dg
+    from dali.address import DeviceShort, InstanceNumber
     drv = case["driver"]
-    sim = SerialSim(drv)
+    # whose table: the driver's own default, or one the program hands to the constructor (empty, or already holding
+    # an entry of another device) and keeps a reference to - the scan's findings must be readable there
+    whose = case.get("map", "default")
+    mine = None
+    if whose != "default":
+        mine = DeviceInstanceTypeMapper()
+        if whose == "own-prefilled":
+            mine.add_type(short_address=61, instance_number=0, instance_type=1)
+    sim = SerialSim(drv, driver_kwargs=None if mine is None else {"dev_inst_map": mine})
+    population = {3: [(True, 1), (False, 4), (True, 3)], 40: [(True, 4)], 63: [(True, 1)]}
+    for a, insts in population.items():
+        sim.expect(_dg.QueryDeviceStatus(device=DeviceShort(a)), ("value", 0))
+        sim.expect(_dg.QueryNumberOfInstances(device=DeviceShort(a)), ("value", len(insts)))
+        for i, (en, t) in enumerate(insts):
+            sim.expect(_dg.QueryInstanceEnabled(device=DeviceShort(a), instance=InstanceNumber(i)), ("value", 0xFF) if en else ("silent",))
+            sim.expect(_dg.QueryInstanceType(device=DeviceShort(a), instance=InstanceNumber(i)), ("value", t))
+    expected = {(a, i): t for a, insts in population.items() for i, (en, t) in enumerate(insts) if en}
+    if whose == "own-prefilled":
+        expected[(61, 0)] = 1
     out = []
     try:
         task = sim.loop.create_task(sim.driver.connect(scan_dev_inst=True))
@@ -1745,6 +1766,18 @@ def case_scan_on_connect(case):
         if "StartQuiescentMode" not in kinds or "StopQuiescentMode" not in kinds or \
                 kinds.index("StartQuiescentMode") > kinds.index("QueryDeviceStatus") if "QueryDeviceStatus" in kinds else False:
             out.append(("C13:discover-quiescent-bracket:connect-scan", "frames sent by connect(scan_dev_inst=True): %r" % (kinds[:6],)))
+        # what the scan found is in the table the program can see: the one it handed over, and driver.dev_inst_map
+        for label, table in (("the table handed to the constructor", mine), ("driver.dev_inst_map", getattr(sim.driver, "dev_inst_map", None))):
+            if table is None:
+                if label == "driver.dev_inst_map":
+                    out.append(("C13:connect-scan-table-missing:" + drv, "driver.dev_inst_map is None after the scan"))
+                continue
+            got = dict(table.mapping)
+            if got != expected:
+                out.append(("C13:connect-scan-findings-not-in-the-table:%s:%s" % (drv, whose),
+                            "after connect(scan_dev_inst=True) %s (%s) holds %r, the bus holds %r" % (label, whose, got, expected)))
+        if mine is not None and getattr(sim.driver, "dev_inst_map", None) is not mine:
+            out.append(("C13:connect-scan-table-replaced:%s:%s" % (drv, whose), "driver.dev_inst_map is not the object given as dev_inst_map="))
     finally:
         sim.close()
     return out
@@ -1753,8 +1786,9 @@ def case_scan_on_connect(case):
 def run(ctx):
     q, s = ctx.quick, ctx.seed
     shards = []
-    shards.append(("connect-scan", "luba"))
-    shards.append(("connect-scan", "sci"))
+    for whose in ("default", "own-empty", "own-prefilled"):
+        shards.append(("connect-scan", "luba", whose))
+        shards.append(("connect-scan", "sci", whose))
     complete = 12 if q else 16
     fillers_q = ["repeat", [0, 0xFF, 0xA5][s % 3], [0xFF, 0xA5, 0][s % 3]]
     for r in range(1, complete + 1):
